@@ -76,4 +76,18 @@ pub fn blocks(thorough: bool) -> Vec<Block> {
 pub fn run(ctx: &Ctx) {
     *ctx.run.rule.lock().unwrap() = "subsets (size bound m) of Sigma^<=k over class-discriminating alphabets (letter, ASCII digit, space, '-', ARABIC-INDIC DIGIT THREE, '_', e-acute, metacharacters) x ALL 64 subsets of {d,D,s,S,w,W} x listed base settings; spec = concatenation of per-code-point sets using regex-syntax's own \\d \\w \\s tables and the documented precedence; product automaton explored completely per case; non-trivial as in C01; distinct by hash".into();
     sweep(ctx, &blocks(ctx.run.is_thorough()), check_case);
+    // every first and last member (+-1) of a range of the \d, \w, \s tables, alone and between a letter and a
+    // digit, under all 64 class subsets: a table lookup that is off by one at either end of a range or of the
+    // whole table changes the class of exactly such a code point
+    let b = crate::props::class_table_boundaries(&ctx.k);
+    let cfgs = class_cfgs(&[0]);
+    crate::ev::par_for(b.len(), |i| {
+        for t in [vec![b[i].to_string()], vec![format!("a{}1", b[i])]] {
+            for c in &cfgs {
+                ctx.run.mark_nontrivial(crate::ev::hash_case(&t, c));
+                check_case(ctx, &t, c);
+            }
+        }
+    });
+    ctx.run.space(serde_json::json!({"universe": "U_table_boundaries: every first/last member +-1 of a range of the \\d, \\w, \\s tables as [c] and [\"a c 1\"]", "sets": b.len() * 2, "settings": "64 class subsets", "cases": b.len() * 2 * cfgs.len()}));
 }
